@@ -157,13 +157,43 @@ class StructShim:
 
 
 def _bytearray(*a):
+    if len(a) == 1 and isinstance(a[0], (list, tuple)) and any(isinstance(v, (SymInt, SymBool)) for v in a[0]):
+        return SymByteArray(_byte_list(a[0]))
     return SymByteArray(*a)
+
+
+def _byte_list(seq):
+    """bytes([...]) / bytearray([...]) of integers some of which are symbolic"""
+    segs = []
+    for v in seq:
+        if isinstance(v, SymBool):
+            v = v.as_int()
+        if isinstance(v, SymInt):
+            if not (v >= 0 and v <= 255):
+                raise ValueError('bytes must be in range(0, 256)')
+            segs.append(Seg('int', n=1, endian='<', value=v, signed=False))
+        else:
+            segs.append(Seg('lit', data=builtins.bytes([v])))
+    return SymBytes(segs)
 
 
 def _bytes(*a, **kw):
     if len(a) == 1 and isinstance(a[0], (SymBytes, SymByteArray)):
         return SymBytes.of(a[0])
+    if len(a) == 1 and isinstance(a[0], (list, tuple)) and any(isinstance(v, (SymInt, SymBool)) for v in a[0]):
+        return _byte_list(a[0])
     return builtins.bytes(*a, **kw)
+
+
+def _to_bytes(self, length=1, byteorder='big', *, signed=False):
+    lo, hi = (-(1 << (8 * length - 1)), (1 << (8 * length - 1)) - 1) if signed else (0, (1 << (8 * length)) - 1)
+    if not (self >= lo and self <= hi):
+        raise OverflowError('int too big to convert')
+    return SymBytes([Seg('int', n=length, endian='<' if byteorder == 'little' else '>', value=self, signed=signed)])
+
+
+SymInt.to_bytes = _to_bytes
+SymInt.bit_length = lambda self: (_ for _ in ()).throw(EngineLimit('bit_length of a symbolic integer'))
 
 
 MARK = re.compile(r'@([A-Za-z_][A-Za-z_0-9]*)@')
@@ -223,6 +253,20 @@ def _int(*a, **kw):
     return builtins.int(*a, **kw)
 
 
+def _int_to_bytes(x, *a, **k):
+    return x.to_bytes(*a, **k)
+
+
+def _int_from_bytes(data, byteorder='big', *, signed=False):
+    if isinstance(data, (SymBytes, SymByteArray)):
+        raise EngineLimit('int.from_bytes of symbolic bytes')
+    return builtins.int.from_bytes(data, byteorder, signed=signed)
+
+
+_int.to_bytes = _int_to_bytes
+_int.from_bytes = _int_from_bytes
+
+
 def _eval(expr, g=None, l=None):
     """an @NAME@ token standing alone is 'some spelling of the integer NAME'"""
     if isinstance(expr, str):
@@ -256,6 +300,10 @@ def _noop(*a, **k):
     return None
 
 
+def _no_struct_class(*a, **k):
+    raise EngineLimit('struct.Struct objects are not modelled')
+
+
 def install(mod, vfs=None):
     """assign the stubs into module ``mod`` (a fresh copy of asm.py)"""
     mod.c_uint32 = _c_uint32
@@ -272,6 +320,14 @@ def install(mod, vfs=None):
     mod.log_conversion = _noop
     mod.log_constant = _noop
     mod.log = _NullLog()
+    # names imported from the stubbed modules directly (from struct import pack, from ctypes import ...)
+    for name, val in list(vars(mod).items()):
+        if val is _struct.pack:
+            setattr(mod, name, StructShim.pack)
+        elif val is _struct.unpack:
+            setattr(mod, name, StructShim.unpack)
+        elif val is _struct.Struct:
+            setattr(mod, name, _no_struct_class)
     if vfs is not None:
         vfs.install(mod)
     return mod
